@@ -1,5 +1,6 @@
 import RCE.Props.C06
 import RCE.Proofs.TranslatedChk
+import RCE.Proofs.SlowSrc
 /-! # C06, stated about definitions TRANSLATED FROM THE SOURCE on this run
 
 `tools/gen_translate.py` turns the Rust expressions of `Knight/King/Pawn::init_attacks`, `init_rays`,
@@ -65,3 +66,21 @@ end RCE.Props.C06
 #print axioms RCE.Props.C06.ray_source_eq
 #print axioms RCE.Props.C06.rook_mask_source_eq
 #print axioms RCE.Props.C06.bishop_mask_source_eq
+
+namespace RCE.Props.C06
+open RCE RCE.Gen
+
+/-- the slow rook walk the source text describes (which ray guards, which is scanned, scan direction, which is cut) is the model's,
+    for every square and EVERY occupancy, and the square index it hands to the ray table is always on the board -/
+theorem rook_slow_source_eq (ha : Tr.rookSlowAvail = true) (hr : Tr.rayInitAvail = true) (sq : Nat) (h : sq < 64) (occ : BB) :
+    Tr.rookSlow sq occ = rookSlow sq occ ∧ Tr.rookSlowOK sq occ = true :=
+  RCE.Proofs.SlowSrc.rook_slow_src ha hr sq h occ
+
+theorem bishop_slow_source_eq (ha : Tr.bishopSlowAvail = true) (hr : Tr.rayInitAvail = true) (sq : Nat) (h : sq < 64) (occ : BB) :
+    Tr.bishopSlow sq occ = bishopSlow sq occ ∧ Tr.bishopSlowOK sq occ = true :=
+  RCE.Proofs.SlowSrc.bishop_slow_src ha hr sq h occ
+
+end RCE.Props.C06
+
+#print axioms RCE.Props.C06.rook_slow_source_eq
+#print axioms RCE.Props.C06.bishop_slow_source_eq
